@@ -47,6 +47,7 @@ static Snap snapshot(const TasmanianSparseGrid &g, const Cfg &cfg){
 
 static std::vector<Op> alphabet_for(const std::string &prop, const Cfg &cfg, const std::string &tier);
 static void c04_pair_experiment(Mon &m, TasmanianSparseGrid &g, const Ref &r, long &nexp);
+static void c04_swap_experiment(Mon &m, TasmanianSparseGrid &g, const Ref &r, long &nexp);
 #include "mon_c01.inc"
 #include "mon_c04.inc"
 #include "mon_c07.inc"
@@ -80,7 +81,7 @@ static void run_experiments(Mon &m, TasmanianSparseGrid &g, const Ref &r, long &
     if (g_prop == "C06") c06_experiments(m, g, r, nexp);
     else if (g_prop == "C11") c11_experiments(m, g, r, nexp);
     else if (g_prop == "C14") c14_experiments(m, g, r, nexp);
-    else if (g_prop == "C04") c04_pair_experiment(m, g, r, nexp);
+    else if (g_prop == "C04"){ c04_pair_experiment(m, g, r, nexp); c04_swap_experiment(m, g, r, nexp); }
 }
 
 // replays a history on a fresh object; returns false if some op is not applicable (cannot happen for recorded histories)
@@ -105,6 +106,23 @@ static void c04_pair_experiment(Mon &m, TasmanianSparseGrid &g, const Ref &r, lo
         }
         out << "E " << ev << "\n";
     }, 600.0);
+    (void) g; (void) r;
+}
+
+// C04 swap experiment (initial state of every local polynomial configuration): values of an affine model are loaded (all deeper nodes then carry a zero coefficient),
+// k of those nodes are removed (the routes still agree: a basis function with a zero coefficient went away) and k NEW nodes are added one sample at a time through
+// the construction path, which updates the grid in place. The number of points is back where it was, the points are not: anything cached per grid and validated
+// by a count only is now stale. All routes of c04_state must still agree.
+static void c04_swap_experiment(Mon &m, TasmanianSparseGrid &g, const Ref &r, long &nexp){
+    const Cfg &cfg = *m.cfg; if (!(cfg.fam == F_LOCALP && m.hist.empty() && cfg.outs > 0 && cfg.order != 0)) return;
+    experiment(m, nexp, "C04:crash:swap-experiment", [&](std::ostream &out){
+        long ev = 0;
+        for(int k = 1; k <= 3; k++){
+            Hist h; h.push_back(Op("swap", k)); TasmanianSparseGrid g2; Ref r2; if (!rebuild(cfg, h, g2, r2)) continue;
+            Mon m2; m2.cfg = &cfg; m2.hist = h; m2.unit = m.unit; c04_state(m2, g2, r2); ev += m2.evals; nexp++; if (m2.nviol) break;
+        }
+        out << "E " << ev << "\n";
+    }, 120.0);
     (void) g; (void) r;
 }
 
